@@ -966,9 +966,19 @@ def run_sharded(ctx, name, jobs, fn, shard_of=None):
     modulo the number of workers) to forked processes, each with its own Ctx (and its own model driver when it asks one);
     violations / counters / coverage are merged in shard order.  Every worker imports nothing anew: it is a fork of this
     process, so midgard is the tree under test and the process state is the one at the fork.  A replay names the shard."""
+    import time as _time
+
     n = workers_for(ctx)
     _WORK[name] = (jobs, fn, shard_of)
     ctx.extra.setdefault("workers", {})[name] = n
+    t0 = _time.time()
+    try:
+        return _run_sharded(ctx, name, jobs, fn, n)
+    finally:
+        ctx.extra.setdefault("phase_wall_seconds", {})[name] = round(_time.time() - t0, 1)
+
+
+def _run_sharded(ctx, name, jobs, fn, n):
     if n <= 1 or len(jobs) < 4 * n:
         state = {}
         for job in jobs:
@@ -1000,7 +1010,9 @@ def run(ctx: Ctx):
 
     changed = extract_cache.generate()
     ctx.count("generated-mech-changed" if changed else "generated-mech-unchanged")
+    _t0 = __import__('time').time()
     ctx.proof = common.prove("C08")
+    ctx.extra.setdefault("phase_wall_seconds", {})["prove"] = round(__import__('time').time() - _t0, 1)
     mods = _mods()
     rng = ctx.rng
     ctx.rule = ("part A: histories over {create array (3 value ids, shapes (3,)/(1,3)/(n,3) resp. scalar/(1,)/(n,), ellipsoid or format tag), "
@@ -1212,11 +1224,17 @@ def run(ctx: Ctx):
     run_sharded(ctx, "D2", jobs2, lambda sub, job, state, shard: c08_hist.exec_d2(sub, mods, job, state), shard_of=c08_hist.shard_d2)
     ctx.extra["D1_histories"], ctx.extra["D2_histories"] = len(jobs1), len(jobs2)
     # ---------------- part E: the other in-place routes NumPy offers (pinned outcome per route)
+    _t0 = __import__('time').time()
     ctx.extra["E_routes"] = c08_hist.run_routes(ctx, mods)
+    ctx.extra.setdefault("phase_wall_seconds", {})["E"] = round(__import__('time').time() - _t0, 1)
     # ---------------- part G: results of time objects are protected or private
+    _t0 = __import__('time').time()
     ctx.extra["G_time_results"] = c08_hist.run_time_results(ctx, mods)
+    ctx.extra.setdefault("phase_wall_seconds", {})["G"] = round(__import__('time').time() - _t0, 1)
     # ---------------- part H: time arrays made from time arrays after earlier indexing / reads
+    _t0 = __import__('time').time()
     ctx.extra["H_time_derivations"] = c08_hist.run_time_derivations(ctx, mods, ctx.thorough)
+    ctx.extra.setdefault("phase_wall_seconds", {})["H"] = round(__import__('time').time() - _t0, 1)
     # ---------------- part F: cached functions and objects on one memory (the constructor keeps the caller's array)
     jobsF = [ctx.rng.randrange(2 ** 31) for _ in range(ctx.budget(8, 64))]
 
